@@ -6,8 +6,11 @@ import (
 	"io"
 	"sync"
 
+	"github.com/pkg/errors"
 	"github.com/tonistiigi/fsutil"
 )
+
+const maxInt = int(^uint(0) >> 1)
 
 var bufPool = sync.Pool{
 	New: func() interface{} {
@@ -39,15 +42,34 @@ func (c *protoStream) RecvMsg(m interface{}) error {
 	if length == 0 {
 		return nil
 	}
-	buf := *bufPool.Get().(*[]byte)
-	if cap(buf) < int(length) {
-		buf = make([]byte, length)
-	} else {
-		buf = buf[:length]
+	if uint64(length) > uint64(maxInt) {
+		return errors.Errorf("protostream: frame of %d bytes is too large", length)
 	}
+	buf := *bufPool.Get().(*[]byte)
 	defer bufPool.Put(&buf)
-	if _, err := io.ReadFull(c.Reader, buf); err != nil {
-		return err
+	// The announced length comes from the peer: never allocate more than a
+	// constant factor of what has actually been received. The buffer doubles
+	// while data keeps arriving.
+	buf = buf[:0]
+	for len(buf) < int(length) {
+		if len(buf) == cap(buf) {
+			n := 2 * cap(buf)
+			if n > int(length) || n <= 0 {
+				n = int(length)
+			}
+			grown := make([]byte, len(buf), n)
+			copy(grown, buf)
+			buf = grown
+		}
+		end := cap(buf)
+		if end > int(length) {
+			end = int(length)
+		}
+		n, err := io.ReadFull(c.Reader, buf[len(buf):end])
+		buf = buf[:len(buf)+n]
+		if err != nil {
+			return err
+		}
 	}
 	err := msg.Unmarshal(buf)
 	if err != nil {
